@@ -148,6 +148,18 @@ def is_strictly_convex(vs, eps=1e-9):
     return True
 
 
+def is_strictly_convex_rel(vs, eps=1e-3):
+    """Strict convexity judged on the sine of the turning angle at every corner (scale-invariant: a cell of a few
+    metres qualifies like one of a thousand kilometres)."""
+    n = len(vs)
+    for i in range(n):
+        a, b, c = vs[i], vs[(i + 1) % n], vs[(i + 2) % n]
+        den = norm(cross(a, b)) * norm(cross(b, c))
+        if den <= 0 or det3(a, b, c) / den <= eps:
+            return False
+    return True
+
+
 def lon_cover_interval(lons_deg):
     """Shortest closed interval of the circle covering all longitudes (degrees).
     Returns (lon_min, lon_max) in [0,360) convention with lon_min > lon_max meaning wrap."""
